@@ -94,6 +94,18 @@ func specD18() *Spec {
 	return s
 }
 
+// specD14: an injector that lacks the error result a dependency's provider needs.
+func specD14() *Spec {
+	s := &Spec{ImportAlias: map[int]string{}, Pkgs: []Pkg{{Name: "app"}}}
+	a := addFreshStruct(s, 0, "A")
+	b := addFreshStruct(s, 0, "B")
+	pa := addItem(s, Item{Kind: "func", Name: "ProvideA", Out: Ptr(Named(a)), Err: true})
+	pb := addItem(s, Item{Kind: "func", Name: "ProvideB", Params: []*Type{Ptr(Named(a))}, Out: Ptr(Named(b))})
+	s.Injectors = []Injector{{Name: "Inject", Out: Ptr(Named(b)), Panic: true, Args: []Ref{RItem(pa), RItem(pb)}}}
+	refreshPlan(s)
+	return s
+}
+
 // WriteFindings writes /verif/known_findings.json.
 func WriteFindings(commits map[string]string) error {
 	type F = Finding
@@ -119,6 +131,7 @@ func WriteFindings(commits map[string]string) error {
 		fixed("D10", "C20", "D10", "copied expression instantiating a generic with two type arguments (Pair[int, string]{...}): unhandled AST node *ast.IndexListExpr", "C20 wire crashed", rawJSON(&C20Case{Cat: "ivalue", Form: "new(I), Pair[int, string]{}", Ctx: "build", Import: "plain"})),
 		fixed("D11", "C20", "D11", "`var a, Set2 = pair()` used as a provider set: index out of range", "C20 wire crashed", c20w("item", "Set2", "build")),
 		fixed("D12", "C20", "D12", "wire.InterfaceValue(new(I), nil): invalid identifier emitted, diagnostic without position, file written", "C20 failure without a positioned diagnostic", c20w("ivalue", "new(any), nil", "buildonly")),
+		fixed("D14", "C19", "D14", "wire check exited 0 for an injector that lacks the error/cleanup result a provider needs (and for values using another package's unexported identifiers) although wire gen rejects it", "C19", rawJSON(specD14())),
 		fixed("D16", "C01", "D16", "wire.Struct(new(other.S), \"*\") with an unexported field: success reported, output does not compile", "C01", rawJSON(specD16())),
 		fixed("D18", "C01", "D16", "unexported provider function in a provider set of another package: success reported, output does not compile", "C01", rawJSON(specD18())),
 		fixed("D19", "C20", "D19", "`var S = wire.ProviderSet{}`: unchecked type assertion panics wire check / wire show", "C20 wire crashed", c20w("item", "wire.ProviderSet{}", "directvar")),
